@@ -159,11 +159,12 @@ class Checker(object):
                     self.fail.append('protect/unlock raises %s: %s' % (type(ex).__name__, str(ex)[:80]))
         return ref
 
-    def emitted_ids(self, key, ref):
-        """issuer / issuer fingerprint / PKESK recipient of fresh output"""
+    def emitted_ids(self, key, ref, secret_source=None):
+        """issuer / issuer fingerprint / PKESK recipient of fresh output; secret_source = the same key in unprotected form
+        (its exported secret packets feed the independent decryptor)"""
         if key.is_public:
             return
-        sec = dict((ifpr(b), b) for t, b in key_bodies(bytes(key)))
+        sec = dict((ifpr(b), b) for t, b in key_bodies(bytes(secret_source or key)))
         for c, f in zip(self.comps(key), ref):
             if not c.key_algorithm.can_sign:
                 continue
@@ -173,13 +174,24 @@ class Checker(object):
                 self.skipped.append('sign with %s: %s' % (c.key_algorithm.name, type(ex).__name__))
                 continue
             s = indep.signature(indep.packets(bytes(sig))[0][1])
-            self.eq('issuer subpacket of a fresh signature', [b.hex() for t, cr, b in s['hashed'] + s['unhashed'] if t == 16], [f[-8:].hex()])
-            self.eq('issuer-fingerprint subpacket of a fresh signature', [b.hex() for t, cr, b in s['hashed'] + s['unhashed'] if t == 33], [(b'\x04' + f).hex()])
-            try:
-                hi = indep.sig_hash_input(s, document=b'fingerprint probe')
-                self.eq('the component named by the issuer made the signature (independent verification)', indep.verify(s, indep.pubkey(sec[f]), hi), True)
-            except NotImplementedError:
-                pass
+            # PGPy may delegate to a subkey that carries the Sign flag: the component that was used is the one whose public
+            # key verifies the signature (independent verifier)
+            hi = indep.sig_hash_input(s, document=b'fingerprint probe')
+            used = []
+            for f2 in ref:
+                try:
+                    if indep.pubkey(sec[f2])['alg'] == s['pkalg'] and indep.verify(s, indep.pubkey(sec[f2]), hi):
+                        used.append(f2)
+                except Exception:
+                    pass
+            if not self.eq('exactly one component of the key verifies the fresh signature (independent verifier)', len(used), 1):
+                continue
+            u = used[0]
+            self.eq('issuer subpacket of a fresh signature names the component that made it', [b.hex() for t, cr, b in s['hashed'] + s['unhashed'] if t == 16], [u[-8:].hex()])
+            self.eq('issuer-fingerprint subpacket of a fresh signature names the component that made it',
+                    [b.hex() for t, cr, b in s['hashed'] + s['unhashed'] if t == 33], [(b'\x04' + u).hex()])
+            if u != f:
+                self.delegated = getattr(self, 'delegated', 0) + 1
         try:
             msg = pgpy.PGPMessage.new(b'recipient probe', compression=CompressionAlgorithm.Uncompressed)
             enc = key.pubkey.encrypt(msg, cipher=SymmetricKeyAlgorithm.AES256)
@@ -323,15 +335,15 @@ def gen_cases(tier, seed):
             heavy = an in ('RSA/2048', 'DSA/2048')
             if tier == 'quick' and heavy and tn not in ('epoch 0', '2^32-1', '+05:30'):
                 continue
-            zones = ZONES if (tier != 'quick' or not heavy) else [ZONES[(ai + ti) % 3]]
+            zones = ZONES if (tier != 'quick' or ai < 2) else [ZONES[(ai + ti) % 3]]
             for z in zones:
                 e = ECDH[(ai + ti + ZONES.index(z)) % len(ECDH)]
-                cases.append({'alg': an, 'time': tn, 'zone': z, 'ecdh': e[0]})
+                cases.append({'alg': an, 'time': tn, 'zone': z, 'ecdh': e[0], 'tier': tier})
     if tier != 'quick':
         for _ in range(120):
             t = rnd.randrange(2 ** 32)
             an = rnd.choice([g[0] for g in GEN_ALGS[:5]])
-            cases.append({'alg': an, 'time': 'posix:%d' % t, 'zone': rnd.choice(ZONES), 'ecdh': rnd.choice(ECDH)[0]})
+            cases.append({'alg': an, 'time': 'posix:%d' % t, 'zone': rnd.choice(ZONES), 'ecdh': rnd.choice(ECDH)[0], 'tier': tier})
     return cases
 
 
@@ -363,10 +375,12 @@ def run_generated(case):
                     ck.eq('exported creation time of the public twin [tag %d]' % t, indep.pubkey(body)['created'], want)
             ck.emitted_ids(k, ref)
             # protected + unlocked: ids written while unlocked
+            if case['tier'] == 'quick' and case['zone'] != 'UTC' and case['alg'] != 'EdDSA/Ed25519':
+                return {'label': ck.label, 'skipped': ck.skipped, 'n': ck.n, 'fail': ck.fail, 'keys': 3, 'fprs': [f.hex() for f in ref]}
             k3, _ = pgpy.PGPKey.from_blob(bytes(k))
             k3.protect(PW, SymmetricKeyAlgorithm.AES128, HashAlgorithm.SHA1)
             with k3.unlock(PW):
-                ck.emitted_ids(k3, ref)
+                ck.emitted_ids(k3, ref, secret_source=k)
         return {'label': ck.label, 'skipped': ck.skipped, 'n': ck.n, 'fail': ck.fail, 'keys': 3, 'fprs': [f.hex() for f in (ref or [])]}
     except Exception as ex:
         import traceback
